@@ -89,12 +89,16 @@ namespace GeographicLib {
   }
 
   Math::real EllipticFunction::RG(real x, real y, real z) {
-    return (x == 0 ? RG(y, z) :
-            (y == 0 ? RG(z, x) :
-             (z == 0 ? RG(x, y) :
-              // Carlson, eq 1.7
-              (z * RF(x, y, z) - (x-z) * (y-z) * RD(x, y, z) / 3
-               + sqrt(x * y / z)) / 2 )));
+    if (x == 0) return RG(y, z);
+    if (y == 0) return RG(z, x);
+    if (z == 0) return RG(x, y);
+    // Carlson, eq 1.7, is free of cancellation only if z lies between x and y
+    // (then (x-z)*(y-z) <= 0); RG is symmetric, so make z the median argument.
+    if ((x - z) * (y - z) > 0) {
+      if ((y - x) * (z - x) <= 0) swap(x, z); else swap(y, z);
+    }
+    return (z * RF(x, y, z) - (x-z) * (y-z) * RD(x, y, z) / 3
+            + sqrt(x * y / z)) / 2;
   }
 
   Math::real EllipticFunction::RG(real x, real y) {
